@@ -209,3 +209,9 @@ From Cooler Require Import Gen.Translated Proofs.GenBridgeCreate.
 Theorem C01_source_pins : Gen.validate_pixels_source_pins = true /\ Gen.create_write_source_pins = true.
 Proof. exact gen_validate_pins. Qed.
 Print Assumptions C01_source_pins.
+
+(** the deprecated `dtype=` spelling of `dtypes=` is resolved in one place and the resolved mapping is what the creators use: pinned
+    in the source on every run (tools/py2v.py) *)
+Theorem C01_dtypes_alias_source_pins : Gen.dtypes_alias_source_pins = true.
+Proof. reflexivity. Qed.
+Print Assumptions C01_dtypes_alias_source_pins.
